@@ -459,6 +459,7 @@ func (p *Proc) fieldStep(ec *ectx, base Val, idx int, n ast.Node) Val {
 		v := Val{T: t, Typ: f.Type()}
 		p.wfAssume(ec.st, v)
 		p.entryAllocated(ec.st, v, h)
+		p.entryAllocatedImmutable(ec.st, v, h, base.T)
 		return v
 	}
 	stt, ok := bt.Underlying().(*types.Struct)
@@ -1292,6 +1293,25 @@ func (p *Proc) pendingStore(ec *ectx, owner types.Type, f *types.Var, val ast.Ex
 // entryAllocated: a reference read from a heap array that is unchanged since procedure entry
 // was allocated at entry (every reference stored in the entry heap is allocated at entry), so
 // that it differs from anything allocated later, also across calls.
+// entryAllocatedImmutable: an immutable field of an object that existed at procedure entry was
+// set before entry, so the reference it holds was allocated at entry as well.
+func (p *Proc) entryAllocatedImmutable(st *State, v Val, h *Term, base *Term) {
+	if hasBound(v.T.S) || hasBound(base.S) || !strings.HasPrefix(h.S, "IF_") || p.entry == nil {
+		return
+	}
+	var ref *Term
+	switch v.Typ.Underlying().(type) {
+	case *types.Pointer, *types.Map:
+		ref = v.T
+	case *types.Slice:
+		ref = SlArr(v.T)
+	default:
+		return
+	}
+	al0 := p.heapGet(p.entry, "AL:", ArrSort(SInt, SBool))
+	st.assume(Imp(Sel(al0, base), Or(Eq(ref, IntLit(0)), Sel(al0, ref))))
+}
+
 func (p *Proc) entryAllocated(st *State, v Val, h *Term) {
 	if hasBound(v.T.S) || !strings.HasPrefix(h.S, "|H_") || strings.Contains(h.S, "!") {
 		return
